@@ -107,6 +107,8 @@ inductive Ev where
   | throw (i : Nat) (e : Nat)
   | interrupt (i : Nat) (e : Nat)
   | setEv (e : Nat)
+  | reinsert (i : Nat) (promoted : List Nat)  -- scheduling.task_reinsert(task i, pos): its ready entry and the
+                                              -- `pos` entries popped before it become positional (class 0)
 deriving Repr, DecidableEq
 
 /-! ### state access -/
@@ -229,6 +231,7 @@ def Ev.enabled (s : State) : Ev → Bool
   | .throw i _ => s.cur != some i
   | .interrupt i _ => s.cur != some i
   | .setEv _ => true
+  | .reinsert i _ => s.cur != some i
 
 /-- the exception (if any) with which Task.__step resumes the coroutine -/
 def resumeExc (t : Task) : Bool :=
@@ -314,6 +317,10 @@ def State.doSetEv (s : State) (e : Nat) : State :=
         { t with status := .woken false, rkey := if s.prioLoop then some (s.eff j) else none }
       else t }
 
+/-- `PosPriorityQueue.insert(pos, handle)`: the listed tasks' ready entries lose their class-1 key -/
+def State.clearRkeys (s : State) (js : List Nat) : State :=
+  js.foldl (fun st j => st.setTask j { st.tasks j with rkey := none }) s
+
 def State.apply (s : State) : Ev → State
   | .resume i => s.doResume i
   | .acquire k => match s.cur with | some i => s.doAcquire i k | none => s
@@ -334,6 +341,7 @@ def State.apply (s : State) : Ev → State
   | .throw i _ => s.doThrow i false
   | .interrupt i _ => s.doThrow i true
   | .setEv e => s.doSetEv e
+  | .reinsert i ps => s.clearRkeys (i :: ps)
 
 /-- Reachability: any initial task population (every task ready to take its first step or
     absent, no lock held, nobody queued), then any sequence of enabled events. -/
